@@ -113,7 +113,7 @@ class Exec:
         if key in self.feas_cache:
             return self.feas_cache[key]
         s = z3.Solver()
-        s.set(timeout=2000)
+        s.set(rlimit=2000000)  # no timeout: z3 timer threads do not survive the fork of the solver pool
         s.add(qf)
         r = s.check() != z3.unsat
         self.feas_cache[key] = r
@@ -604,24 +604,42 @@ class Exec:
         tag = name.replace(".", "_")
         if name in spec.schemas:
             sch = spec.schemas[name]
-            return Seq.fresh(f"{tag}!h{next(self.fresh_n)}", sch, kind="list")
-        if is_sym(cur):
-            return self.fresh(tag + "!h", cur.sort())
-        if isinstance(cur, bool):
-            return self.fresh(tag + "!h", BOOL)
-        if isinstance(cur, int):
-            return self.fresh(tag + "!h", INT)
-        if isinstance(cur, float):
-            return self.fresh(tag + "!h", REAL)
-        if isinstance(cur, Seq):
-            s = Seq.fresh(f"{tag}!h{next(self.fresh_n)}", cur.schema, kind=cur.kind)
+            s = Seq.fresh(f"{tag}!h{next(self.fresh_n)}", sch, kind="list")
             self.assume(s.wf())
             return s
-        if isinstance(cur, Arr):
-            return Arr(self.fresh(tag + "!h", cur.a.sort()), cur.n)
         if isinstance(cur, list) and len(cur) == 0:
             raise Unsupported(f"loop modifies list {name!r}: give its element schema in the loop spec")
-        raise Unsupported(f"cannot havoc {name!r} of type {type(cur).__name__}")
+        return self.havoc(cur, tag + "!h")
+
+    def havoc(self, cur, tag):
+        """fresh symbolic value of the same shape"""
+        tag = tag.replace(".", "_")
+        if is_sym(cur):
+            return self.fresh(tag, cur.sort())
+        if isinstance(cur, Seq):
+            s = Seq.fresh(f"{tag}!{next(self.fresh_n)}", cur.schema, kind=cur.kind)
+            self.assume(s.wf())
+            return s
+        if isinstance(cur, Rec) and cur.frozen:
+            r = Rec(cur.cls, {k: self.havoc(v, tag + "_" + k) for k, v in cur.f.items()}, module=cur.module, frozen=True)
+            if hasattr(cur, "local_class"):
+                r.local_class = cur.local_class
+            return r
+        if isinstance(cur, Arr):
+            return Arr(self.fresh(tag, cur.a.sort()), cur.n)
+        if isinstance(cur, dict):
+            return {k: self.havoc(v, tag + "_" + str(k)) for k, v in cur.items()}
+        if isinstance(cur, tuple):
+            return tuple(self.havoc(v, tag + "_" + str(i)) for i, v in enumerate(cur))
+        if cur is None or isinstance(cur, (str, EnumV)):
+            return cur
+        if isinstance(cur, bool):
+            return self.fresh(tag, BOOL)
+        if isinstance(cur, int):
+            return self.fresh(tag, INT)
+        if isinstance(cur, float):
+            return self.fresh(tag, REAL)
+        raise Unsupported(f"cannot havoc {tag!r} of type {type(cur).__name__}")
 
     # ------------------------------------------------------------------ assignment
     def assign(self, t, v, force=False):
